@@ -38,6 +38,7 @@ Choose ==
   /\ \/ task = "tens" /\ \E M \in Mats : first' = M
      \/ task = "pts" /\ \E p \in Pts : first' = p
      \/ task = "transpose" /\ \E r \in 2..4 : first' = <<r>>
+     \/ task = "tprod" /\ \E r \in 1..3 : first' = <<r>>
 
 Compute ==
   /\ pc = "chosen" /\ pc' = "done" /\ UNCHANGED <<task, first>>
@@ -82,6 +83,14 @@ Compute ==
                           perm |-> perm, cyc |-> c,
                           rty |-> [a \in 1..r |-> IF perm[a] <= nfree THEN "free" ELSE ty[perm[a]]]]
 
+     \/ /\ task = "tprod"        \* tensor product: every axis of both factors, covariant ones in front, each factor in its own order
+        /\ LET r1 == first[1] IN
+           \E r2 \in 1..2 : \E ty1 \in [1..r1 -> {"cov", "con"}], ty2 \in [1..r2 -> {"cov", "con"}] :
+             LET sel(f, ty, x) == SelectSeq([a \in 1..Len(ty) |-> <<f, a>>], LAMBDA fa : ty[fa[2]] = x)
+                 src == sel(1, ty1, "cov") \o sel(2, ty2, "cov") \o sel(1, ty1, "con") \o sel(2, ty2, "con") IN
+             res' = [t |-> "tprod", ty1 |-> ty1, ty2 |-> ty2, src |-> src,
+                     rty |-> [k \in DOMAIN src |-> IF src[k][1] = 1 THEN ty1[src[k][2]] ELSE ty2[src[k][2]]]]
+
 Next == Choose \/ Compute
 Spec == Init /\ [][Next]_vars
 
@@ -100,8 +109,23 @@ TransposeIsPerm == (Done /\ res.t = "transpose") =>
    /\ Cardinality({res.perm[a] : a \in 1..res.rank}) = res.rank
    /\ \A a \in 1..res.rank : res.rty[a] = res.ty[res.perm[a]]
 
+\* every axis of either factor appears exactly once, with its type; covariant axes first; the axes of one factor and one type
+\* keep their order, and those of the first factor come before those of the second
+TensorProductAxes == (Done /\ res.t = "tprod") =>
+   LET n == Len(res.src) IN
+   /\ n = Len(res.ty1) + Len(res.ty2)
+   /\ {res.src[k] : k \in 1..n} = ({1} \X DOMAIN res.ty1) \cup ({2} \X DOMAIN res.ty2)
+   /\ \A k, l \in 1..n : k < l => /\ ~(res.rty[k] = "con" /\ res.rty[l] = "cov")
+                                  /\ (res.rty[k] = res.rty[l]) => \/ res.src[k][1] < res.src[l][1]
+                                                                   \/ (res.src[k][1] = res.src[l][1] /\ res.src[k][2] < res.src[l][2])
+
 Stratum == CASE res.t = "tens" -> "tensor/" \o res.kind
              [] res.t = "pts" -> (IF Wt(res.p) = 0 \/ (res.q # <<>> /\ Wt(res.q) = 0) THEN "point-at-infinity" ELSE "finite")
+             [] res.t = "tprod" -> (IF \E a \in DOMAIN res.ty1 : \E b \in DOMAIN res.ty1 : a < b /\ res.ty1[a] = "con" /\ res.ty1[b] = "cov"
+                                    THEN "tensor_product/first-factor-contravariant-before-covariant"
+                                    ELSE IF \E a \in DOMAIN res.ty2 : \E b \in DOMAIN res.ty2 : a < b /\ res.ty2[a] = "con" /\ res.ty2[b] = "cov"
+                                    THEN "tensor_product/second-factor-contravariant-before-covariant"
+                                    ELSE "tensor_product/covariant-first-factors")
              [] OTHER -> (IF res.cyc # <<>> THEN "transpose/cycle" ELSE "transpose/perm")
 Dump == (Done /\ DoDump) => PrintT(ToJson([r |-> res, s |-> Stratum]))
 =============================================================================
